@@ -27,13 +27,13 @@ Proof.
 Qed.
 
 (* ---------------------------------------------------------------- unfolding the nested fixes *)
-Lemma flat_tag q par pn nn p ks :
-  flat q par pn nn (NTag p ks) = mkel q par (BTag p (length ks)) :: flat_kids q (g_name p) 0 ks.
+Lemma flat_tag q par pn p ks :
+  flat q par pn (NTag p ks) = mkel q par (BTag p (length ks)) :: flat_kids q (g_name p) 0 ks.
 Proof.
   cbn. f_equal. generalize 0%nat. induction ks as [|k ks IH]; intros i; cbn; [reflexivity|]. now rewrite IH.
 Qed.
-Lemma brackets_tag q par pn nn p ks :
-  brackets q par pn nn (NTag p ks) =
+Lemma brackets_tag q par pn p ks :
+  brackets q par pn (NTag p ks) =
   let el := mkel q par (BTag p (length ks)) in
   if is_empty_element p (length ks) then [mkev KEmpty el]
   else mkev KStart el :: brackets_kids q (g_name p) 0 ks ++ [mkev KEnd el].
@@ -41,8 +41,8 @@ Proof.
   cbn. destruct (is_empty_element p (length ks)); [reflexivity|]. f_equal. f_equal.
   generalize 0%nat. induction ks as [|k ks IH]; intros i; cbn; [reflexivity|]. now rewrite IH.
 Qed.
-Lemma plain_tag enc f pn nn p ks :
-  plain enc f pn nn (NTag p ks) =
+Lemma plain_tag enc f pn p ks :
+  plain enc f pn (NTag p ks) =
   let n := length ks in
   if is_empty_element p n then [format_tag enc f p n true]
   else format_tag enc f p n true :: plain_kids enc f (g_name p) ks ++ [format_tag enc f p n false].
@@ -50,8 +50,8 @@ Proof.
   cbn. destruct (is_empty_element p (length ks)); [reflexivity|]. f_equal. f_equal.
   induction ks as [|k ks IH]; cbn; [reflexivity|]. now rewrite IH.
 Qed.
-Lemma pretty_tag enc f lv pn nn p ks :
-  pretty enc f lv pn nn (NTag p ks) =
+Lemma pretty_tag enc f lv pn p ks :
+  pretty enc f lv pn (NTag p ks) =
   let n := length ks in
   if is_empty_element p n then [deco f false (format_tag enc f p n true) lv true true]
   else if should_pretty_print p then
@@ -65,25 +65,25 @@ Proof.
   destruct (should_pretty_print p); [|reflexivity]. f_equal. f_equal.
   induction ks as [|k ks IH]; cbn; [reflexivity|]. now rewrite IH.
 Qed.
-Lemma items_tag enc f lv pn nn p ks :
-  items enc f lv pn nn (NTag p ks) =
+Lemma items_tag enc f lv pn p ks :
+  items enc f lv pn (NTag p ks) =
   let n := length ks in
   if is_empty_element p n then simple_items lv (format_tag enc f p n true)
   else if should_pretty_print p then
     simple_items lv (format_tag enc f p n true) ++
     items_kids enc f (lv + 1) (g_name p) ks ++ simple_items lv (format_tag enc f p n false)
   else
-    [mkitem lv true (concat (plain enc f pn nn (NTag p ks)))].
+    [mkitem lv true (concat (plain enc f pn (NTag p ks)))].
 Proof.
   cbn [items]. cbn zeta. destruct (is_empty_element p (length ks)); [reflexivity|].
   destruct (should_pretty_print p); [|reflexivity]. f_equal. f_equal.
   induction ks as [|k ks IH]; cbn; [reflexivity|]. now rewrite IH.
 Qed.
-Lemma pw_blocks_tag enc f pn nn p ks :
-  pw_blocks enc f pn nn (NTag p ks) =
+Lemma pw_blocks_tag enc f pn p ks :
+  pw_blocks enc f pn (NTag p ks) =
   if is_empty_element p (length ks) then []
   else if should_pretty_print p then pw_blocks_kids enc f (g_name p) ks
-  else [concat (plain enc f pn nn (NTag p ks))].
+  else [concat (plain enc f pn (NTag p ks))].
 Proof.
   cbn [pw_blocks]. destruct (is_empty_element p (length ks)); [reflexivity|].
   destruct (should_pretty_print p); [|reflexivity].
@@ -98,12 +98,12 @@ Definition outside (q : eid) (rest : list elem) : Prop :=
   | c :: _ => forall p, e_par c = Some p -> ~ prefix q p
   end.
 
-Lemma flat_head q par pn nn t : exists tl, flat q par pn nn t = elem_of q par pn nn t :: tl.
+Lemma flat_head q par pn t : exists tl, flat q par pn t = elem_of q par pn t :: tl.
 Proof. destruct t as [p ks|c s]; [rewrite flat_tag|cbn]; eexists; reflexivity. Qed.
 
-Lemma elem_of_par q par pn nn t : e_par (elem_of q par pn nn t) = par.
+Lemma elem_of_par q par pn t : e_par (elem_of q par pn t) = par.
 Proof. now destruct t. Qed.
-Lemma elem_of_id q par pn nn t : e_id (elem_of q par pn nn t) = q.
+Lemma elem_of_id q par pn t : e_id (elem_of q par pn t) = q.
 Proof. now destruct t. Qed.
 
 Lemma outside_child q i rest : outside q rest -> outside (q ++ [i]) rest.
@@ -129,11 +129,11 @@ Proof. intros <-. cbn. now rewrite eid_eqb_refl. Qed.
 
 Definition stack_ready (par : option eid) (stack : list elem) : Prop := unwind par stack = ([], stack).
 
-Theorem loop_tree : forall t q par pn nn stack rest,
+Theorem loop_tree : forall t q par pn stack rest,
   stack_ready par stack -> outside q rest ->
-  event_loop stack (flat q par pn nn t ++ rest) = brackets q par pn nn t ++ event_loop stack rest.
+  event_loop stack (flat q par pn t ++ rest) = brackets q par pn t ++ event_loop stack rest.
 Proof.
-  induction t as [c s|p ks IH] using node_ind'; intros q par pn nn stack rest Hst Hout.
+  induction t as [c s|p ks IH] using node_ind'; intros q par pn stack rest Hst Hout.
   - cbn [flat app event_loop e_par e_body brackets]. rewrite Hst. reflexivity.
   - rewrite flat_tag, brackets_tag. cbn zeta.
     cbn [app event_loop e_par e_body]. rewrite Hst. cbn [map app].
@@ -142,9 +142,9 @@ Proof.
       destruct ks; [|cbn in Eemp; discriminate]. reflexivity.
     + cbn [app]. f_equal.
       set (el := mkel q par (BTag p (length ks))).
-      assert (Hk : forall ks', Forall (fun t => forall q par pn nn stack rest,
+      assert (Hk : forall ks', Forall (fun t => forall q par pn stack rest,
                        stack_ready par stack -> outside q rest ->
-                       event_loop stack (flat q par pn nn t ++ rest) = brackets q par pn nn t ++ event_loop stack rest) ks' ->
+                       event_loop stack (flat q par pn t ++ rest) = brackets q par pn t ++ event_loop stack rest) ks' ->
                    forall i rest', outside q rest' ->
                    event_loop (el :: stack) (flat_kids q (g_name p) i ks' ++ rest') =
                    brackets_kids q (g_name p) i ks' ++ event_loop (el :: stack) rest').
@@ -155,7 +155,7 @@ Proof.
         - apply unwind_top. reflexivity.
         - destruct ks' as [|k2 ks2].
           + cbn. now apply outside_child.
-          + cbn [flat_kids]. destruct (flat_head (q ++ [S i]) (Some q) (Some (g_name p)) (starts_nl ks2) k2) as [tl ->].
+          + cbn [flat_kids]. destruct (flat_head (q ++ [S i]) (Some q) (Some (g_name p)) k2) as [tl ->].
             cbn. rewrite elem_of_par. intros p0 [= <-]. apply not_prefix_child_self. }
       rewrite <- app_assoc. rewrite (Hk ks IH 0%nat rest Hout). f_equal.
       cbn [app]. apply loop_close. exact Hout.
@@ -170,15 +170,15 @@ Proof.
   - f_equal. now apply IH.
   - destruct ks as [|k2 ks2].
     + cbn. now apply outside_child.
-    + cbn [flat_kids]. destruct (flat_head (q ++ [S i]) (Some q) (Some pn) (starts_nl ks2) k2) as [tl ->].
+    + cbn [flat_kids]. destruct (flat_head (q ++ [S i]) (Some q) (Some pn) k2) as [tl ->].
       cbn. rewrite elem_of_par. intros p0 [= <-]. apply not_prefix_child_self.
 Qed.
 
 (* the stream of a whole traversal *)
-Theorem event_stream_tree q par pn nn t :
-  event_stream (flat q par pn nn t) = brackets q par pn nn t.
+Theorem event_stream_tree q par pn t :
+  event_stream (flat q par pn t) = brackets q par pn t.
 Proof.
-  unfold event_stream. rewrite <- (app_nil_r (flat q par pn nn t)).
+  unfold event_stream. rewrite <- (app_nil_r (flat q par pn t)).
   rewrite loop_tree; [cbn; now rewrite app_nil_r|reflexivity|exact I].
 Qed.
 Theorem event_stream_kids q pn i ks :
@@ -202,7 +202,7 @@ Definition raw_piece (enc : bool) (f : fmt) (ev : event) : str :=
   match e_body (ev_el ev), ev_kind ev with
   | BTag p n, KEnd => format_tag enc f p n false
   | BTag p n, _ => format_tag enc f p n true
-  | BStr c s pn nn, _ => output_ready f c s pn nn
+  | BStr c s pn, _ => output_ready f c s pn
   end.
 
 Lemma deco_eq f (is_str : bool) piece lv b a :
@@ -242,9 +242,9 @@ Lemma step_lit_empty enc f lv z out q par p n :
   decode_step enc f (mkds (Some lv) (Some z) out) (mkev KEmpty (mkel q par (BTag p n))) =
   mkds (Some lv) (Some z) (format_tag enc f p n true :: out).
 Proof. reflexivity. Qed.
-Lemma step_lit_string enc f lv z out q par c s pn nn :
-  decode_step enc f (mkds (Some lv) (Some z) out) (mkev KString (mkel q par (BStr c s pn nn))) =
-  mkds (Some lv) (Some z) (output_ready f c s pn nn :: out).
+Lemma step_lit_string enc f lv z out q par c s pn :
+  decode_step enc f (mkds (Some lv) (Some z) out) (mkev KString (mkel q par (BStr c s pn))) =
+  mkds (Some lv) (Some z) (output_ready f c s pn :: out).
 Proof. reflexivity. Qed.
 Lemma step_lit_end enc f lv z out q par p n : z <> q ->
   decode_step enc f (mkds (Some lv) (Some z) out) (mkev KEnd (mkel q par (BTag p n))) =
@@ -290,19 +290,19 @@ Proof.
   unfold decode_step. cbn [ev_el ev_kind e_body e_id d_level d_slt d_out option_map].
   cbn [negb andb orb is_string_body]. rewrite <- (deco_eq f false). reflexivity.
 Qed.
-Lemma step_pp_string enc f lv out q par c s pn nn :
-  decode_step enc f (mkds (Some lv) None out) (mkev KString (mkel q par (BStr c s pn nn))) =
-  mkds (Some lv) None (deco f true (output_ready f c s pn nn) lv true true :: out).
+Lemma step_pp_string enc f lv out q par c s pn :
+  decode_step enc f (mkds (Some lv) None out) (mkev KString (mkel q par (BStr c s pn))) =
+  mkds (Some lv) None (deco f true (output_ready f c s pn) lv true true :: out).
 Proof.
   unfold decode_step. cbn [ev_el ev_kind e_body e_id d_level d_slt d_out option_map].
   cbn [negb andb orb is_string_body]. rewrite <- (deco_eq f true). reflexivity.
 Qed.
 
 (* the written-as-it-is pieces of a bracket sequence are the plain rendering *)
-Lemma raw_brackets enc f : forall t q par pn nn,
-  map (raw_piece enc f) (brackets q par pn nn t) = plain enc f pn nn t.
+Lemma raw_brackets enc f : forall t q par pn,
+  map (raw_piece enc f) (brackets q par pn t) = plain enc f pn t.
 Proof.
-  induction t as [c s|p ks IH] using node_ind'; intros q par pn nn; [reflexivity|].
+  induction t as [c s|p ks IH] using node_ind'; intros q par pn; [reflexivity|].
   rewrite brackets_tag, plain_tag. cbn zeta. destruct (is_empty_element p (length ks)); [reflexivity|].
   cbn [map]. unfold raw_piece at 1. cbn [ev_el ev_kind e_body]. f_equal.
   rewrite map_app. cbn [map]. unfold raw_piece at 2. cbn [ev_el ev_kind e_body]. f_equal.
@@ -317,19 +317,19 @@ Proof.
 Qed.
 
 (* string-literal mode: the pieces of the plain rendering, level and mode restored at the end *)
-Lemma dfold_lit enc f : forall t q par pn nn lv z out, ~ prefix q z ->
-  dfold enc f (mkds (Some lv) (Some z) out) (brackets q par pn nn t) =
-  mkds (Some lv) (Some z) (rev (plain enc f pn nn t) ++ out).
+Lemma dfold_lit enc f : forall t q par pn lv z out, ~ prefix q z ->
+  dfold enc f (mkds (Some lv) (Some z) out) (brackets q par pn t) =
+  mkds (Some lv) (Some z) (rev (plain enc f pn t) ++ out).
 Proof.
-  induction t as [c s|p ks IH] using node_ind'; intros q par pn nn lv z out Hz.
+  induction t as [c s|p ks IH] using node_ind'; intros q par pn lv z out Hz.
   - cbn [brackets]. now rewrite dfold_cons, step_lit_string, dfold_nil.
   - rewrite brackets_tag, plain_tag. cbn zeta. destruct (is_empty_element p (length ks)).
     + now rewrite dfold_cons, step_lit_empty, dfold_nil.
     + rewrite dfold_cons, step_lit_start.
       rewrite dfold_app.
-      assert (Hk : forall ks', Forall (fun t => forall q par pn nn lv z out, ~ prefix q z ->
-                      dfold enc f (mkds (Some lv) (Some z) out) (brackets q par pn nn t) =
-                      mkds (Some lv) (Some z) (rev (plain enc f pn nn t) ++ out)) ks' ->
+      assert (Hk : forall ks', Forall (fun t => forall q par pn lv z out, ~ prefix q z ->
+                      dfold enc f (mkds (Some lv) (Some z) out) (brackets q par pn t) =
+                      mkds (Some lv) (Some z) (rev (plain enc f pn t) ++ out)) ks' ->
                 forall i lv' out', dfold enc f (mkds (Some lv') (Some z) out') (brackets_kids q (g_name p) i ks') =
                                    mkds (Some lv') (Some z) (rev (plain_kids enc f (g_name p) ks') ++ out')).
       { induction ks' as [|k ks' IHk]; intros HF i lv' out'; [reflexivity|].
@@ -351,20 +351,20 @@ Proof.
 Qed.
 
 (* pretty-printing mode *)
-Lemma dfold_pretty enc f : forall t q par pn nn lv out,
-  dfold enc f (mkds (Some lv) None out) (brackets q par pn nn t) =
-  mkds (Some lv) None (rev (pretty enc f lv pn nn t) ++ out).
+Lemma dfold_pretty enc f : forall t q par pn lv out,
+  dfold enc f (mkds (Some lv) None out) (brackets q par pn t) =
+  mkds (Some lv) None (rev (pretty enc f lv pn t) ++ out).
 Proof.
-  induction t as [c s|p ks IH] using node_ind'; intros q par pn nn lv out.
+  induction t as [c s|p ks IH] using node_ind'; intros q par pn lv out.
   - cbn [brackets]. now rewrite dfold_cons, step_pp_string, dfold_nil.
   - rewrite brackets_tag, pretty_tag. cbn zeta. destruct (is_empty_element p (length ks)).
     + now rewrite dfold_cons, step_pp_empty, dfold_nil.
     + destruct (should_pretty_print p) eqn:Epp.
       * rewrite dfold_cons, step_pp_start by assumption.
         rewrite dfold_app.
-        assert (Hk : forall ks', Forall (fun t => forall q par pn nn lv out,
-                        dfold enc f (mkds (Some lv) None out) (brackets q par pn nn t) =
-                        mkds (Some lv) None (rev (pretty enc f lv pn nn t) ++ out)) ks' ->
+        assert (Hk : forall ks', Forall (fun t => forall q par pn lv out,
+                        dfold enc f (mkds (Some lv) None out) (brackets q par pn t) =
+                        mkds (Some lv) None (rev (pretty enc f lv pn t) ++ out)) ks' ->
                   forall i lv' out', dfold enc f (mkds (Some lv') None out') (brackets_kids q (g_name p) i ks') =
                                      mkds (Some lv') None (rev (pretty_kids enc f lv' (g_name p) ks') ++ out')).
         { induction ks' as [|k ks' IHk]; intros HF i lv' out'; [reflexivity|].
@@ -406,7 +406,7 @@ Proof.
       rewrite dfold_pretty_kids. cbn [d_out]. now rewrite app_nil_r, rev_involutive.
     + now rewrite decode_events_none, raw_brackets_kids.
   - rewrite event_stream_tree. destruct level as [lv|]; cbn [render_node].
-    + unfold decode_events. fold (dfold enc f (mkds (Some lv) None []) (brackets [] None None false (NTag p ks))).
+    + unfold decode_events. fold (dfold enc f (mkds (Some lv) None []) (brackets [] None None (NTag p ks))).
       rewrite dfold_pretty. cbn [d_out]. now rewrite app_nil_r, rev_involutive.
     + now rewrite decode_events_none, raw_brackets.
 Qed.
@@ -430,16 +430,16 @@ Definition empty_ok (ev : event) : Prop :=
   ev_kind ev = KEmpty ->
   match e_body (ev_el ev) with
   | BTag p n => n = 0%nat /\ g_can_empty p = true
-  | BStr _ _ _ _ => False
+  | BStr _ _ _ => False
   end.
 Lemma is_empty_element_spec p n : is_empty_element p n = true <-> n = 0%nat /\ g_can_empty p = true.
 Proof. unfold is_empty_element. rewrite andb_true_iff, Nat.eqb_eq. tauto. Qed.
 
 Lemma empty_ok_other k el : k <> KEmpty -> empty_ok (mkev k el).
 Proof. intros H E. cbn in E. contradiction. Qed.
-Lemma brackets_empty_ok : forall t q par pn nn, Forall empty_ok (brackets q par pn nn t).
+Lemma brackets_empty_ok : forall t q par pn, Forall empty_ok (brackets q par pn t).
 Proof.
-  induction t as [c s|p ks IH] using node_ind'; intros q par pn nn.
+  induction t as [c s|p ks IH] using node_ind'; intros q par pn.
   - cbn [brackets]. constructor; [apply empty_ok_other; discriminate|constructor].
   - rewrite brackets_tag. cbn zeta. destruct (is_empty_element p (length ks)) eqn:E.
     + constructor; [|constructor]. intros _. cbn. now apply is_empty_element_spec.
@@ -463,30 +463,30 @@ Qed.
 
 (* ... and, on the written text: an element with contents is written as start tag, contents, end tag,
    and neither tag carries the void-element slash *)
-Theorem tag_with_children_rendering enc f pn nn p k ks :
-  plain enc f pn nn (NTag p (k :: ks)) =
+Theorem tag_with_children_rendering enc f pn p k ks :
+  plain enc f pn (NTag p (k :: ks)) =
   format_tag enc f p (S (length ks)) true :: plain_kids enc f (g_name p) (k :: ks) ++ [format_tag enc f p (S (length ks)) false]
   /\ is_empty_element p (S (length ks)) = false.
 Proof. rewrite plain_tag. cbn [length]. split; reflexivity. Qed.
 
 (* text whose parent is a cdata-containing element is emitted as it is *)
-Theorem cdata_text_verbatim f c s pname nn :
+Theorem cdata_text_verbatim f c s pname :
   output_kind c = 0%N -> affixes c = ([], []) -> memS pname (f_cdata f) = true ->
-  output_ready f c s (Some pname) nn = s.
+  output_ready f c s (Some pname) = s.
 Proof.
-  intros Hk Ha Hm. unfold output_ready. rewrite Ha, Hk. cbn [app]. rewrite app_nil_r.
+  intros Hk Ha Hm. unfold output_ready, preformatted. rewrite Ha, Hk. cbn [app N.eqb negb]. rewrite app_nil_r.
   unfold substitute. destruct (f_subst f); [|reflexivity]. cbn [andb]. now rewrite Hm.
 Qed.
 (* everywhere else it goes through the formatter's function; strings of the preformatted classes
    never do *)
-Theorem other_text_substituted f g c s pname nn :
+Theorem other_text_substituted f g c s pname :
   f_subst f = Some g -> output_kind c = 0%N -> affixes c = ([], []) ->
   match pname with Some n => memS n (f_cdata f) | None => false end = false ->
-  output_ready f c s pname nn = g s.
+  output_ready f c s pname = g s.
 Proof.
-  intros Hg Hk Ha Hm. unfold output_ready. rewrite Ha, Hk. cbn [app]. rewrite app_nil_r.
+  intros Hg Hk Ha Hm. unfold output_ready, preformatted. rewrite Ha, Hk. cbn [app N.eqb negb]. rewrite app_nil_r.
   unfold substitute. rewrite Hg. cbn [andb]. now rewrite Hm.
 Qed.
 Theorem preformatted_verbatim f c s pname :
-  output_kind c = 1%N -> output_ready f c s pname false = fst (affixes c) ++ s ++ snd (affixes c).
-Proof. intros Hk. unfold output_ready. destruct (affixes c) as [pre suf]. now rewrite Hk. Qed.
+  output_kind c = 1%N -> output_ready f c s pname = fst (affixes c) ++ s ++ snd (affixes c).
+Proof. intros Hk. unfold output_ready, preformatted. destruct (affixes c) as [pre suf]. now rewrite Hk. Qed.
